@@ -44,7 +44,7 @@ def _add(store, stix_data, allow_custom=True, version=None):
         if isinstance(stix_data, _STIXBase):
             stix_obj = stix_data
         else:
-            stix_obj = parse(stix_data, allow_custom, version)
+            stix_obj = parse(stix_data, allow_custom=allow_custom, version=version)
 
         # Map ID to a _ObjectFamily if the object is versioned, so we can track
         # multiple versions.  Otherwise, map directly to the object.  All
